@@ -205,6 +205,8 @@ class Process(object):
         self._worker = None
         self.redirected = False
         self.started = 0
+        # psutil handles of the children seen by the last call to children()
+        self._children = {}
 
         if self.uid is not None and self.gid is None:
             self.gid = get_default_gid(self.uid)
@@ -526,7 +528,11 @@ class Process(object):
 
     def children(self, recursive=False):
         """Return a list of children pids."""
-        return [child.pid for child in get_children(self._worker, recursive)]
+        children = get_children(self._worker, recursive)
+        # keep the handles: when the process dies its children are re-parented
+        # at once and cannot be found through it anymore
+        self._children = dict((child.pid, child) for child in children)
+        return [child.pid for child in children]
 
     def is_child(self, pid):
         """Return True is the given *pid* is a child of that process."""
@@ -538,12 +544,17 @@ class Process(object):
     @debuglog
     def send_signal_child(self, pid, signum):
         """Send signal *signum* to child *pid*."""
-        children = dict((child.pid, child)
-                        for child in get_children(self._worker))
         try:
-            children[pid].send_signal(signum)
-        except KeyError:
+            children = dict((child.pid, child)
+                            for child in get_children(self._worker))
+        except NoSuchProcess:
+            children = {}
+        # a child listed just before the process was signalled (see
+        # children()) is still ours even if the process is gone by now
+        child = children.get(pid) or self._children.get(pid)
+        if child is None:
             raise NoSuchProcess(pid)
+        child.send_signal(signum)
 
     @debuglog
     def send_signal_children(self, signum, recursive=False):
